@@ -66,7 +66,7 @@ func genC19() *rapid.Generator[*Spec] {
 			s.Note = "C19 badset " + kind
 			return s
 		}
-		s := GenWF(WFOpts{NoFaults: true, Names: 20}).Draw(t, "p")
+		s := GenWF(WFOpts{NoFaults: true, Names: 60}).Draw(t, "p")
 		s.Note = strings.TrimSpace(s.Note + " C19 wf")
 		return s
 	})
